@@ -141,7 +141,8 @@ pub fn suite_clirt(dir: &str, seed: u64, thorough: bool, st: &mut Stats) {
     par_for(n + nbig, 12, |i, st, lines| {
         let mut rng = Rng::new(seed ^ 0x91 ^ ((i as u64) << 20));
         let big = i >= n;
-        let c = gen_cli_case(&mut rng, big);
+        let c = if !big && i % 6 == 5 { match crate::archive::equal_size_case(&mut rng) { Some(c) => { st.count("clirt/equal-size-chunk"); c } None => gen_cli_case(&mut rng, false) } }
+                else { gen_cli_case(&mut rng, big) };
         let s = Scn::new("rt", i as u64);
         s.write("src.bin", &c.src);
         let mut args: Vec<String> = vec!["compress".into(), "-i".into(), "src.bin".into()];
